@@ -107,6 +107,10 @@ def oracle_facts(spaces, lowers, words):
                 ok = False
     facts.append(('lower_preserves_class', ok))
     facts.append(('keywords_lower_fixed', all(ord(c) not in low for c in 'andorwith()')))
+    # premises of the C18 theorem: the keyword characters are not white space; lower-casing a character that is not a
+    # parenthesis never produces a parenthesis
+    facts.append(('keyword_chars_not_space', all(ord(c) not in sp for c in 'andorwith()')))
+    facts.append(('lower_never_makes_paren', all(40 not in lo and 41 not in lo for cp, lo in low.items())))
     # '-', ':', '.', '+' are not word characters or spaces; letters, digits, '_' are word characters
     def isw(c):
         return any(a <= c <= b for a, b in words)
